@@ -862,7 +862,10 @@ def rule_signedpower(ctx):
             n += 1
             res.instance("%s : `%s`" % (key, r.e(y)[:40]))
             ex = peel_refs(y["args"][0]) if y["args"] else {}
-            even_lit = ex.get("k") == "Lit" and str(ex.get("v")).rstrip(".0f3264_i") in ("2", "4", "6")
+            vv = str(ex.get("v", ""))
+            for suf in ("i32", "f32", "f64", "_"):
+                vv = vv.replace(suf, "")
+            even_lit = ex.get("k") == "Lit" and vv in ("2", "4", "6", "2.0", "4.0", "6.0", "2.", "4.", "6.")
             if even_lit:
                 res.ok()
             else:
